@@ -15,7 +15,14 @@ from rules import registry as REG
 def scratch_copy(repo="/repo"):
     d = tempfile.mkdtemp(prefix="corgi-mut-")
     dst = os.path.join(d, "repo")
-    subprocess.check_call(["rsync", "-a", "--exclude", "target", "--exclude", ".git", repo + "/", dst + "/"])
+    if os.environ.get("VERIF_SCRATCH_FROM_HEAD"):
+        # the committed tree (used while seeded/confirm.py has /repo's working tree patched)
+        os.makedirs(dst)
+        ar = subprocess.Popen(["git", "-C", repo, "archive", "HEAD"], stdout=subprocess.PIPE)
+        subprocess.check_call(["tar", "-x", "-C", dst], stdin=ar.stdout)
+        ar.wait()
+    else:
+        subprocess.check_call(["rsync", "-a", "--exclude", "target", "--exclude", ".git", repo + "/", dst + "/"])
     return d, dst
 
 
